@@ -1,15 +1,12 @@
 SPECIFICATION GSpec
 CONSTANTS
   Sess = {"s1"}
-  Reqs = {}
-  Gets = {"g1","g2","g3"}
-  Prime <- PrimeAll
-  Store = TRUE
-  Json = FALSE
-  Stateless = FALSE
-  MaxEmit = 0
+  Reqs = {"r1"}
+  Gets = {"g1","g2"}
+  Cfgs <- CfgStorePrime
+  MaxEmit = 1
   MaxSreq = 0
-  MaxSa = 3
+  MaxSa = 0
   Gates = TRUE
 VIEW MCView
 INVARIANTS ResumeExact IdsDense IdStable StoreBeforeDeliver CompleteAtEnd CompleteAtRest FinalObtainable RefusedOnlyOnConflict ResponseOnOwnExchange NestedRouting NoCrossSession RoutingEntryLifecycle LockDiscipline
